@@ -124,7 +124,11 @@ func genLog(r *fw.Rand, tier string) []string {
 			shards += 3
 			add(fmt.Sprintf("createsg %s %s %d", r.Pick(dbPool[:4]), r.Pick(rpPool[:5]), genTS(r)))
 		case 21:
-			add(fmt.Sprintf("deletesg %s %s %d %s", r.Pick(dbPool[:4]), r.Pick(rpPool[:5]), id(sgs), age()))
+			if r.Chance(0.3) {
+				add(fmt.Sprintf("deletesg %s %s %d %s", r.Pick(dbPool[:4]), r.Pick(rpPool[:5]), id(sgs), age()))
+			} else {
+				add(fmt.Sprintf("deletesgid %d %s", id(sgs), age()))
+			}
 		case 22, 23:
 			add(fmt.Sprintf("truncate %d", genTS(r)))
 		case 24:
